@@ -1455,11 +1455,19 @@ func (c *DnsController) LookupDnsRespCache(cacheKey string, ignoreFixedTtl bool)
 // OPTIMISTIC CACHE (RFC 8767): Returns stale response while background refresh is in progress.
 // Falls back to an owned in-place TTL-aware pack if pre-packed response is not available.
 func (c *DnsController) LookupDnsRespCache_(msg *dnsmessage.Msg, cacheKey string, ignoreFixedTtl bool) (resp []byte, needRefresh bool) {
+	resp, claimed := c.lookupDnsRespCacheClaim_(msg, cacheKey, ignoreFixedTtl)
+	return resp, claimed != nil
+}
+
+// lookupDnsRespCacheClaim_ is LookupDnsRespCache_ that also says which entry's
+// refresh slot the caller has just claimed (nil when no refresh is needed), so
+// that the refresh can release that entry's slot and no other.
+func (c *DnsController) lookupDnsRespCacheClaim_(msg *dnsmessage.Msg, cacheKey string, ignoreFixedTtl bool) (resp []byte, claimed *DnsCache) {
 	c.requireStore()
 	// Load cache directly without expiry check (to support optimistic cache)
 	val, ok := c.dnsCache.Load(cacheKey)
 	if !ok {
-		return nil, false
+		return nil, nil
 	}
 	cache := val.(*DnsCache)
 
@@ -1490,7 +1498,7 @@ func (c *DnsController) LookupDnsRespCache_(msg *dnsmessage.Msg, cacheKey string
 			// Fresh cache hit - return immediately
 			// Trigger async BPF update if needed
 			c.triggerBpfUpdateIfNeeded(cache, now)
-			return resp, false
+			return resp, nil
 		}
 
 		// Fallback: pre-packed response not available, use the owned in-place path.
@@ -1498,9 +1506,9 @@ func (c *DnsController) LookupDnsRespCache_(msg *dnsmessage.Msg, cacheKey string
 		// to mutate it in place, so this avoids the extra request copy on the
 		// remaining TTL-aware cache-hit fallback.
 		if resp = cache.fillIntoWithTTLInPlace(msg, now); resp != nil {
-			return resp, false
+			return resp, nil
 		}
-		return nil, false
+		return nil, nil
 	}
 
 	// Cache expired - check if optimistic cache is enabled
@@ -1512,16 +1520,16 @@ func (c *DnsController) LookupDnsRespCache_(msg *dnsmessage.Msg, cacheKey string
 			// Within stale window - return stale response and trigger background refresh
 			// Use CAS to ensure only one goroutine triggers refresh
 			if cache.refreshing.CompareAndSwap(false, true) {
-				needRefresh = true
+				claimed = cache
 			}
-			return resp, needRefresh
+			return resp, claimed
 		}
 	}
 
 	// Cache expired and beyond stale window (or optimistic cache disabled)
 	// Evict the cache
 	c.evictDnsRespCacheIfSame(cacheKey, cache)
-	return nil, false
+	return nil, nil
 }
 
 // NormalizeAndCacheDnsResp_ handle DNS resp in place.
@@ -2232,12 +2240,12 @@ func (c *DnsController) HandleWithResponseWriter_(ctx context.Context, dnsMessag
 		}
 
 		// Check cache after routing (non-reject case)
-		if resp, needRefresh := c.LookupDnsRespCache_(dnsMessage, responseCacheKey, false); resp != nil {
+		if resp, claimed := c.lookupDnsRespCacheClaim_(dnsMessage, responseCacheKey, false); resp != nil {
 			// Cache hit - return immediately without singleflight
 			// OPTIMISTIC CACHE: resp may be stale, trigger background refresh if needed
-			if needRefresh {
+			if claimed != nil {
 				// Background refresh - don't block the current request
-				go c.backgroundRefresh(responseCacheKey, dnsMessage, req, upstreamIndex, upstream)
+				go c.backgroundRefresh(claimed, responseCacheKey, dnsMessage, req, upstreamIndex, upstream)
 			}
 
 			if err = c.writeCachedResponse(resp, dnsMessage.Id, req, responseWriter); err != nil {
@@ -2438,11 +2446,11 @@ func (c *DnsController) handleWithResponseWriter_(
 		return c.sendRejectWithResponseWriter_(dnsMessage, req, responseWriter)
 	}
 
-	if resp, needRefresh := c.LookupDnsRespCache_(dnsMessage, responseCacheKey, false); resp != nil {
+	if resp, claimed := c.lookupDnsRespCacheClaim_(dnsMessage, responseCacheKey, false); resp != nil {
 		// Send cache to client directly.
 		// OPTIMISTIC CACHE: Trigger background refresh if stale
-		if needRefresh {
-			go c.backgroundRefresh(responseCacheKey, dnsMessage, req, upstreamIndex, upstream)
+		if claimed != nil {
+			go c.backgroundRefresh(claimed, responseCacheKey, dnsMessage, req, upstreamIndex, upstream)
 		}
 
 		if needResp {
